@@ -64,6 +64,7 @@ type ledgerEntry struct {
 	what  string
 	op    string
 	check func() string // "" when the result still has the value it was returned with
+	owned [][]byte      // byte slices reachable from the result: the caller owns them and may overwrite them
 }
 
 type c12ctx struct {
@@ -73,8 +74,18 @@ type c12ctx struct {
 	hist   []string
 }
 
-func (c *c12ctx) add(what, op string, check func() string) {
-	c.ledger = append(c.ledger, ledgerEntry{what, op, check})
+func (c *c12ctx) add(what, op string, check func() string, owned ...[]byte) {
+	// a new result may not share storage with any result handed out earlier
+	for _, nb := range owned {
+		for _, e := range c.ledger {
+			for _, ob := range e.owned {
+				if len(nb) > 0 && len(ob) > 0 && overlaps(nb[:len(nb):len(nb)], ob[:len(ob):len(ob)]) {
+					c.res.Violate("C12.results-share-storage", fmt.Sprintf("a byte slice returned by `%s` shares storage with one returned earlier by `%s`", op[:min(len(op), 60)], e.op[:min(len(e.op), 60)]), []string{e.op, op})
+				}
+			}
+		}
+	}
+	c.ledger = append(c.ledger, ledgerEntry{what, op, check, owned})
 	if len(c.ledger) > 400 { // keep the most recent results under observation
 		c.ledger = c.ledger[len(c.ledger)-300:]
 	}
@@ -134,16 +145,42 @@ func (c *c12ctx) opDecode(name string, img []byte) {
 		c.res.Violate("C12.decoded-aliases-input:"+name, "overwriting the input buffer after IDecode changed the decoded PDU", []string{op, "scribble input"})
 		return
 	}
+	var owned [][]byte
+	deepBytes(reflect.ValueOf(p), func(b []byte) { owned = append(owned, b) })
 	c.add("decoded-changed-later:"+name, op, func() string {
 		if now := renderRecord(name, snapshot(p)); now != before {
 			return "decoded PDU differs from its value at return"
 		}
 		return ""
-	})
+	}, owned...)
 	c.res.Count("decode")
 }
 
 func g16(g *Rng) int { return g.Intn(16) }
+
+// the caller overwrites the byte slices of one result it was handed earlier (it owns them); that result
+// leaves the ledger, every other result must keep its value
+func (c *c12ctx) opReuse() {
+	var cand []int
+	for i, e := range c.ledger {
+		if len(e.owned) > 0 {
+			cand = append(cand, i)
+		}
+	}
+	if len(cand) == 0 {
+		return
+	}
+	i := cand[c.g.Intn(len(cand))]
+	e := c.ledger[i]
+	for _, b := range e.owned {
+		for k := range b {
+			b[k] = 0xEE
+		}
+	}
+	c.ledger = append(c.ledger[:i:i], c.ledger[i+1:]...)
+	c.hist = append(c.hist, "caller overwrites the byte slices of the result of: "+e.op[:min(len(e.op), 80)])
+	c.res.Count("reuse-decoded")
+}
 
 // one encode: the output is remembered; sometimes the caller overwrites an older output it owns
 func (c *c12ctx) opEncode(name string, r record) {
@@ -344,7 +381,7 @@ func (c *c12ctx) opFrameThenDecode(name string, img []byte, cname string) {
 }
 
 func runC12(res *Result, d *Driver, g *Rng, tier string) {
-	res.Rule = "histories of IDecode / IEncode / String / content split / pooled helpers / TLV serialisation calls, any mix of the 58 PDU types (records as C01, images as C11 incl. optional parameters), the caller overwriting every input buffer right after each decode and, one time in three, the output it was handed; a ledger re-checks every earlier result (deep copy taken at return) after every call; pointer-overlap test of every []byte reachable from a decoded PDU against the input buffer; frames taken from the zero-copy extractor, decoded, then the connection buffer refilled; non-trivial = distinct (call, position in history)"
+	res.Rule = "histories of IDecode / IEncode / String / content split / pooled helpers / TLV serialisation calls, any mix of the 58 PDU types (records as C01, images as C11 incl. optional parameters), the caller overwriting every input buffer right after each decode, one time in three the output it was handed, and now and then the byte slices inside an earlier decoded PDU (it owns them); a ledger re-checks every earlier result (deep copy taken at return) after every call; pointer-overlap test of every []byte reachable from a decoded PDU against the input buffer; frames taken from the zero-copy extractor, decoded, then the connection buffer refilled; non-trivial = distinct (call, position in history)"
 	if err := loadLayouts(layoutsPath); err != nil {
 		res.Disagreements = append(res.Disagreements, Violation{Class: "driver-failure", What: err.Error()})
 		return
@@ -355,16 +392,45 @@ func runC12(res *Result, d *Driver, g *Rng, tier string) {
 		nh, hl = 300, 1000
 	}
 	names := pduNames()
+	// PDU types that carry byte slices (optional parameters): chosen half of the time, with values drawn
+	// from a small alphabet so that equal values recur within one history
+	var rich []string
+	for _, n := range names {
+		if s := shapes[n]; s != nil && len(s.tlvs) > 0 {
+			rich = append(rich, n)
+		}
+	}
+	small := [][]byte{{0x00}, {0x01}, {0xFF}, {0x01, 0x02}, {}, {0x00, 0x00, 0x00, 0x00}}
 	for h := 0; h < nh; h++ {
 		c := &c12ctx{res: res, g: g}
 		for step := 0; step < hl; step++ {
 			name := names[g.Intn(len(names))]
+			if g.Bool() && len(rich) > 0 {
+				name = rich[g.Intn(len(rich))]
+			}
 			s := shapes[name]
 			if s == nil {
 				continue
 			}
 			r := genFit(g, s, false)
-			switch k := g.Intn(10); {
+			for _, f := range s.tlvs {
+				v := r[f]
+				if len(v.tlvs) == 0 && g.Bool() {
+					v.tlvs = []tlv{{uint16(1 + g.Intn(16)), nil}}
+				}
+				for i := range v.tlvs {
+					if g.Intn(3) != 0 {
+						v.tlvs[i].val = append([]byte{}, small[g.Intn(len(small))]...)
+					}
+				}
+				r[f] = v
+			}
+			switch k := g.Intn(11); {
+			case k == 10:
+				c.opReuse()
+				if len(c.hist) == 0 {
+					continue
+				}
 			case k < 4:
 				_, img, _, _ := goEnc(name, r)
 				if img != nil {
